@@ -383,6 +383,47 @@ func TestC37Blob(t *testing.T) {
 		}
 		mustReject(t, decryptKey(oct, pw.b, scheme), "DecryptPrivateKey with password %q of a blob made with %q", pw.b, others[0])
 
+		// the caller's password buffer is its own: a caller that wipes or reuses it after
+		// a call (as callers holding secrets do) must see the same verdicts as one that
+		// passes fresh slices. buf holds pw, is used for a call, then overwritten in place
+		// with another password of the same length.
+		if len(pw.b) > 0 {
+			var same []byte // another password with the length of pw
+			for _, op := range others {
+				if len(op) == len(pw.b) {
+					same = op
+					break
+				}
+			}
+			if same == nil {
+				same = append([]byte{}, pw.b...)
+				same[0] ^= 0x01
+			}
+			// (a call with another password first, so that the call with buf is not the
+			// repetition of the previous password)
+			if _, err := keystore.EncryptPrivateKey(priv, append([]byte{}, same...)); err != nil {
+				t.Fatalf("EncryptPrivateKey: %v", err)
+			}
+			buf := append([]byte{}, pw.b...)
+			ct3, err := keystore.EncryptPrivateKey(priv, buf)
+			if err != nil {
+				t.Fatalf("EncryptPrivateKey: %v", err)
+			}
+			copy(buf, same)
+			mustReject(t, decryptKey(ct3, buf, scheme), "DecryptPrivateKey with a reused password buffer now holding %q, blob made when it held %q", same, pw.b)
+			ct4, err := keystore.EncryptPrivateKey(priv, buf) // made under `same`
+			if err != nil {
+				t.Fatalf("EncryptPrivateKey: %v", err)
+			}
+			mustReject(t, decryptKey(ct4, append([]byte{}, pw.b...), scheme), "DecryptPrivateKey with %q of a blob made with a reused buffer holding %q", pw.b, same)
+			if o := decryptKey(ct4, append([]byte{}, same...), scheme); o.err != nil || o.pan != nil {
+				t.Fatalf("DecryptPrivateKey with %q of the blob made with a reused buffer holding %q: err %v panic %v", same, same, o.err, o.pan)
+			}
+			if o := decryptKey(ct3, append([]byte{}, pw.b...), scheme); o.err != nil || o.pan != nil {
+				t.Fatalf("DecryptPrivateKey with the same password %q after the caller's buffer was reused: err %v panic %v", pw.b, o.err, o.pan)
+			}
+		}
+
 		labels := []string{"scheme:" + scheme, "pw:" + pw.class, fmt.Sprintf("blob-len:%d", len(ct))}
 		if mask&(mask-1) == 0 {
 			labels = append(labels, "mask:single-bit")
